@@ -358,6 +358,11 @@ func (e *Exec) checkFrame(st *State, fr *Frame, env *Env) {
 			if allowedGhost[key] {
 				continue
 			}
+			if strings.Contains(key, ".result") && strings.Contains(key, "!c") {
+				// ghost state of an object returned by a callee during this
+				// call: not part of the pre-state
+				continue
+			}
 			now, have := st.Ghost[key]
 			if !have {
 				continue
